@@ -147,6 +147,17 @@ func build(s *Spec) reflect.Value {
 			m.SetMapIndex(reflect.ValueOf(k), ev)
 		}
 		return m
+	case "nmap":
+		// map keyed by a defined string type
+		m := reflect.MakeMap(reflect.MapOf(reflect.TypeOf(NamedString("")), ifaceType))
+		for i, k := range s.Keys {
+			ev := build(&s.Elems[i])
+			if !ev.IsValid() {
+				ev = reflect.Zero(ifaceType)
+			}
+			m.SetMapIndex(reflect.ValueOf(NamedString(k)), ev)
+		}
+		return m
 	case "imap":
 		m := reflect.MakeMap(reflect.MapOf(reflect.TypeOf(0), ifaceType))
 		for i := range s.Elems {
@@ -195,7 +206,7 @@ func Expect(s *Spec) (interface{}, error) {
 			out[i] = v
 		}
 		return out, nil
-	case "map":
+	case "map", "nmap":
 		out := map[string]interface{}{}
 		for i, k := range s.Keys {
 			v, err := Expect(&s.Elems[i])
@@ -225,7 +236,7 @@ func (s *Spec) Stats() (ptr, strct bool, depth int) {
 		return
 	case "struct":
 		return true, true, 2
-	case "slice", "array", "iface-slice", "map", "imap":
+	case "slice", "array", "iface-slice", "map", "nmap", "imap":
 		for i := range s.Elems {
 			p, st, d := s.Elems[i].Stats()
 			ptr = ptr || p
